@@ -68,6 +68,26 @@ func replay(f lib.Flags) int {
 			return 2
 		}
 		fmt.Printf("replay %+v\n", c)
+	case "lin":
+		var c linCase
+		if err := json.Unmarshal(raw, &c); err != nil {
+			lib.Fatal(err)
+		}
+		o, err := runLinCase(c)
+		if err != nil {
+			fmt.Println("replay: cannot run the schedule:", err)
+			return 2
+		}
+		monitorLin(m, c, o)
+		fmt.Printf("replay %+v\n -> code: %s\n", c, o.answer)
+	case "wrapper":
+		res := lib.NewResult("C12", f)
+		runWrappers(f, res)
+		for _, v := range res.Monitors[0].Violations {
+			if mm, ok := v.Input.(map[string]any); ok && mm["pkg"] == in["pkg"] && mm["router"] == in["router"] {
+				m.Violate(v.Signature, v.What, v.Input, v.Expected, v.Observed)
+			}
+		}
 	case "stress":
 		res := lib.NewResult("C12", f)
 		runStress(f, res)
